@@ -67,6 +67,7 @@ let table : (string * (z list -> z)) list = [
   ("hist", judge_hist);
   ("threads", judge_threads);
   ("equimod", judge_equimod);
+  ("matutil", judge_matutil);
 ]
 
 let () =
